@@ -73,6 +73,18 @@ CHECKS["C18"] = dict(
          "(the model's token attributes are abstract); binding is by trace validation only.",
     ref="4 C18", technique="TLA+ model checking (TLC) + trace validation")
 
+CHECKS["C19"] = dict(
+    text="The statistics log is specified as a sequence of character classes with JSON escaping per class "
+         "(spec/StatsLog.tla); TLC explores every record list within bounds over 9 classes (LF, CR, quote, "
+         "backslash, control, astral, U+2028, ...) and any session boundaries and checks ReadFile(file) = log, "
+         "no raw line break inside a record and once-only summarising. TLC's record lists are written with "
+         "the real Stats::write in every split into append batches (in memory and through an append-mode file "
+         "as harper-ls does), together with records from real lints and harper-wasm's generate/import; every "
+         "session (Reset/Wrote/ReadBack/Summary events) is validated by the stateful trace spec "
+         "spec/trace/Trace_StatsLog.tla.",
+    note="Trusted: TLC; record identity = digest of the Debug form of the record in the harness.",
+    ref="4 C19", technique="TLA+ model checking (TLC) + spec-to-code replay + trace validation")
+
 NOT_YET = {}
 
 
